@@ -64,6 +64,13 @@ def jobs(ctx):
     sel = cfgs[:n]
     if not any("cell_veto" in c for c, _ in sel):
         sel[-1] = (base + "dipoles/cell_veto.ini", {})
+    # crowded cell systems: several units in nearby cells, so that the ORDER in which the cell-based taggers generate
+    # their in-states matters (finding F9: it depended on memory addresses)
+    crowd = {"RandomInputHandler": {"number_of_root_nodes": 12}, "CuboidPeriodicCells": {"cells_per_side": "5, 5, 5"},
+             "CoulombNearby": {"number_event_handlers": 14}, "CoulombSurplus": {"number_event_handlers": 14}}
+    sel.append((base + "coulomb_atoms/cell_veto.ini", crowd))
+    if ctx.tier == "thorough":
+        sel.append((base + "coulomb_atoms/cell_bounded.ini", dict(crowd, CoulombCellBounding={"number_event_handlers": 30})))
     return sel
 
 
@@ -119,9 +126,9 @@ def run(ctx, replay_jobs=None):
         dumps = w["dumps"]
         if not dumps:
             ctx.notes.append("no dump written within %d legs for %s" % (j["max_legs"], j["config"]))
-        # every dump of the run (quick: at most 3 spread over the run)
-        sel = dumps if ctx.tier == "thorough" else [dumps[k] for k in sorted({0, len(dumps) // 2, len(dumps) - 1})] \
-            if dumps else []
+        # (quick: at most 3 dumps spread over the run; thorough: at most 24, evenly spread, first and last included)
+        nsel = ctx.n(3, 24)
+        sel = [dumps[k] for k in sorted({(len(dumps) - 1) * q // max(1, nsel - 1) for q in range(nsel)})] if dumps else []
         for d in sel:
             resume_pay.append({"mode": "resume", "dump_file": d["file"], "max_legs": ctx.n(60, 200)})
             resume_ref.append((i, d))
